@@ -27,7 +27,8 @@ McOut(t, b) == IF t = 4 THEN <<"invalid">>
              ELSE IF t = 2 THEN (IF b = "L" THEN <<"pass">> ELSE <<"tuned", 3>>)
              ELSE <<"pass">>
 ColExprs == {NoneE} \cup {<<"lit", k>> : k \in Pal} \cup {<<"var", v>> : v \in Vars}
-            \cup {<<"varfb", v, k>> : v \in Vars, k \in {1, 3}}
+            \cup {<<"varfb", v, <<"lit", k>>>> : v \in Vars, k \in {1, 3}}
+            \cup {<<"varfb", p[1], <<"var", p[2]>>>> : p \in {q \in Vars \X Vars : q[1] # q[2]}}      \* var(--v, var(--w))
 VarDefs == {<<"undef">>} \cup {<<"lit", k>> : k \in {1, 2, 3}} \cup {<<"var", v>> : v \in Vars}
 Rules == [root : BOOLEAN, col : ColExprs, bg : {"none"} \cup Bgs]
 VARIABLES tab, phase, sheet0, vdef, rules, i, acc, tuned, failed, cards, failedSel, rootDirty
@@ -35,15 +36,18 @@ vars == <<tab, phase, sheet0, vdef, rules, i, acc, tuned, failed, cards, failedS
 Out(t, b) == IF <<t, b>> \in DOMAIN tab THEN tab[<<t, b>>] ELSE <<"invalid">>
 McTab == [p \in Pal \X Bgs |-> McOut(p[1], p[2])]
 \* ---- variable resolution as the code does it (visited set, fallback) ----
+\* The fallback of var(--v, fallback) is itself an expression: a literal or another var().  As in the code, a cycle
+\* returns the RAW fallback text: a literal is then the colour, a var() text is a non-colour string (-2), no fallback is -1.
 RECURSIVE Res(_, _, _)
 Res(e, vd, visited) ==
    IF e[1] = "lit" THEN e[2]
    ELSE IF e[1] \in {"var", "varfb"} THEN
         LET v == e[2]
-            fb == IF e[1] = "varfb" THEN e[3] ELSE -1
-        IN IF v \in visited THEN fb
+            raw == IF e[1] # "varfb" THEN -1 ELSE IF e[3][1] = "lit" THEN e[3][2] ELSE -2
+        IN IF v \in visited THEN raw
            ELSE LET r == IF v \notin DOMAIN vd \/ vd[v][1] = "undef" THEN -1 ELSE Res(vd[v], vd, visited \cup {v})
-                IN IF r # -1 THEN r ELSE fb
+                IN IF r # -1 THEN r
+                   ELSE IF e[1] = "varfb" THEN Res(e[3], vd, visited \cup {v}) ELSE -1
    ELSE -1
 \* the stylesheet is built rule by rule (so that TLC can also SIMULATE behaviours: one random stylesheet per run),
 \* then frozen as sheet0 and processed
@@ -61,7 +65,7 @@ Process ==
      IF r.col = NoneE THEN UNCHANGED <<vdef, rules, acc, tuned, failed, cards, failedSel, rootDirty>>
      ELSE LET t == Res(r.col, vdef, {})
               b == IF r.bg = "none" THEN "L" ELSE r.bg
-              o == IF t = -1 THEN <<"invalid">> ELSE Out(t, b)
+              o == IF t < 0 THEN <<"invalid">> ELSE Out(t, b)
           IN CASE o[1] = "invalid" -> /\ failed' = failed + 1 /\ failedSel' = failedSel \cup {i}
                                       /\ UNCHANGED <<vdef, rules, acc, tuned, cards, rootDirty>>
                [] o[1] = "fail"    -> /\ failed' = failed + 1 /\ failedSel' = failedSel \cup {i}
@@ -108,7 +112,8 @@ UsesVar(k, v) == sheet0[2][k].col[1] \in {"var", "varfb"} /\ sheet0[2][k].col[2]
 RECURSIVE ChainOf(_, _)
 ChainOf(e, seen) ==
    IF e[1] \in {"var", "varfb"} /\ e[2] \notin seen
-   THEN {e[2]} \cup (IF e[2] \in DOMAIN sheet0[1] /\ sheet0[1][e[2]][1] = "var" THEN ChainOf(sheet0[1][e[2]], seen \cup {e[2]}) ELSE {})
+   THEN {e[2]} \cup (IF e[2] \in DOMAIN sheet0[1] /\ sheet0[1][e[2]][1] \in {"var", "varfb"} THEN ChainOf(sheet0[1][e[2]], seen \cup {e[2]}) ELSE {})
+             \cup (IF e[1] = "varfb" /\ e[3][1] = "var" THEN ChainOf(e[3], seen \cup {e[2]}) ELSE {})
    ELSE {}
 \* F6: a LATER rule directly references a custom property on rule k's chain (and so may re-tune it after k was reported).
 \* The last rule that uses a property is not in the class: nothing changes under it afterwards.
